@@ -66,6 +66,33 @@ def check(d):
     return {k: sorted(v) for k, v in fired.items()}
 
 
+def sweep():
+    """every stored seed against every check; writes /verif/seeded/RESULTS.json"""
+    out = {}
+    base = "/verif/seeded"
+    for name in sorted(os.listdir(base)):
+        d = os.path.join(base, name)
+        if not os.path.isdir(d):
+            continue
+        rc, o = sh("git -C %s apply --check %s/patch.diff" % (REPO, d))
+        if rc != 0:
+            out[name] = {"applies": False}
+            continue
+        meta = json.load(open(os.path.join(d, "meta.json")))
+        fired = check(d)
+        out[name] = {"applies": True, "property": meta.get("property"), "fired": fired,
+                     "caught_by_own_property": meta.get("property") in fired and
+                     fired[meta.get("property")] != ["ANALYSIS-ERROR"]}
+        print(name, out[name], flush=True)
+    head = sh("git -C %s rev-parse --short HEAD" % REPO)[1].strip()
+    json.dump({"repo_head": head, "seeds": out}, open(os.path.join(base, "RESULTS.json"), "w"), indent=1)
+    return out
+
+
 if __name__ == "__main__":
-    cmd, d = sys.argv[1], sys.argv[2]
-    print(json.dumps(verify(d) if cmd == "verify" else check(d), indent=1))
+    cmd = sys.argv[1]
+    if cmd == "sweep":
+        sweep()
+    else:
+        d = sys.argv[2]
+        print(json.dumps(verify(d) if cmd == "verify" else check(d), indent=1))
